@@ -1,6 +1,6 @@
 (* Dispatch.v — one entry point `run op arg` for every executable model and spec.
    Used identically by the extracted runner (coq/extract) and by `Eval vm_compute` re-evaluation. *)
-From Verif Require Import PyVal Rows Enc ComparableGen AsIndicesGen Order Sort SortSpec Dedup DedupSpec Basics SetOps SetSpec Joins Relational HashJoins Reductions GroupSpec Machines Selects Transforms Reshape Csv Tees TempFiles.
+From Verif Require Import PyVal Rows Enc ComparableGen AsIndicesGen Order Sort SortSpec Dedup DedupSpec Basics SetOps SetSpec Joins Relational HashJoins Reductions GroupSpec Machines Selects Transforms Reshape Csv Tees TempFiles Db DbProgGen.
 Open Scope Z_scope.
 
 Definition run_cmp (arg : val) : val :=
@@ -939,6 +939,31 @@ Definition run_df_run (arg : val) : val :=
   | _ => bad_input
   end.
 
+(* ---- database loads (C17) --------------------------------------------------------------------------------------------- *)
+(* db_load: (handle kind, todb?, commit, header, rows, fail|None, prior contents)
+   -> (raised, what a fresh connection sees, what the loading connection sees | None when it was closed) *)
+Definition run_db_load (arg : val) : val :=
+  match arg with
+  | VSeq _ [VStr kind; todbv; cmv; hdrv; rowsv; failv; priorv] =>
+      match dec_bool todbv, dec_bool cmv, dec_row hdrv, dec_table rowsv, dec_opt dec_nat failv, dec_table priorv with
+      | Some is_todb, Some cm, Some hdr, Some rows, Some fail, Some prior =>
+          let src := {| s_hdr := hdr; s_rows := rows; s_fail := fail |} in
+          let s := {| committed := prior; pending := None |} in
+          let tr := if is_todb then todb_truncate else appenddb_truncate in
+          let go := fun (closes : bool) (p : list action) =>
+                      let '(s', raised) := run_prog closes tr cm p src s in
+                      vtuple [vbool raised; enc_table (committed s');
+                              if closes then VNone else enc_table (visible s')] in
+          if zs_eqb kind "filename" then go filename_closes_in_finally prog_connection
+          else if zs_eqb kind "connection" then go false prog_connection
+          else if zs_eqb kind "cursor" then go false prog_cursor
+          else if zs_eqb kind "mkcurs" then go false prog_mkcurs
+          else bad_input
+      | _, _, _, _, _, _ => bad_input
+      end
+  | _ => bad_input
+  end.
+
 Definition run (op : list Z) (arg : val) : val :=
   if zs_eqb op "cmp" then run_cmp arg
   else if zs_eqb op "sort" then run_sort arg
@@ -970,6 +995,7 @@ Definition run (op : list Z) (arg : val) : val :=
   else if zs_eqb op "csv_parse" then run_csv_parse arg
   else if zs_eqb op "tee" then run_tee arg
   else if zs_eqb op "tf_run" then run_tf_run arg
+  else if zs_eqb op "db_load" then run_db_load arg
   else if zs_eqb op "df_run" then run_df_run arg
   else if zs_eqb op "addfields" then run_addfields arg
   else if zs_eqb op "select" then run_select arg
